@@ -25,9 +25,28 @@ pub struct TornCase {
     pub pend: Pend,
     pub seed: u64,
     pub only_k: Option<u64>,
+    /// leaf-spilling archive with uncompressed directories (one write per number, tens of
+    /// thousands of operations): the crash points are the first 40, the last 400 and 300 seeded
+    /// ones in between instead of all of them
+    #[serde(default)]
+    pub sample: bool,
 }
 
 pub struct TornWrite;
+
+fn crash_points(n: usize, sample: bool, seed: u64) -> Vec<usize> {
+    if !sample || n <= 800 {
+        return (0..=n).collect();
+    }
+    let mut r = Rng::new(seed ^ 0x7042);
+    let mut ks: Vec<usize> = (0..40).chain(n - 400..=n).collect();
+    for _ in 0..300 {
+        ks.push(40 + r.usize_below(n - 440));
+    }
+    ks.sort_unstable();
+    ks.dedup();
+    ks
+}
 
 fn image_after(log: &[Op], k: usize) -> Vec<u8> {
     let mut img: Vec<u8> = Vec::new();
@@ -65,7 +84,10 @@ impl Scenario for TornWrite {
         };
         let face = Face::draw(rng);
         let pend = if face == Face::Async && rng.chance(60) { Pend { rate: 50, burst: 2, inline: 50, ctl: true } } else { Pend::NEVER };
-        to_value(&TornCase { a: draw_archive(rng, size, ic), face, pend, seed: rng.next_u64(), only_k: None })
+        if rng.chance(2) {
+            return to_value(&TornCase { a: draw_archive(rng, SizeClass::Huge, 1), face, pend, seed: rng.next_u64(), only_k: None, sample: true });
+        }
+        to_value(&TornCase { a: draw_archive(rng, size, ic), face, pend, seed: rng.next_u64(), only_k: None, sample: false })
     }
     fn execute(&self, case: &Value, ctx: &mut Ctx) -> V<()> {
         let c: TornCase = from_value(case);
@@ -85,8 +107,11 @@ impl Scenario for TornWrite {
         ctx.bump("recorded_ops_total", n as u64);
         let ks: Vec<usize> = match c.only_k {
             Some(k) => vec![(k as usize).min(n)],
-            None => (0..=n).collect(),
+            None => crash_points(n, c.sample, c.seed),
         };
+        if c.sample {
+            ctx.bump("sampled_sweeps_uncompressed_leaf_archives", 1);
+        }
         let mut last_img_hash = u64::MAX;
         for k in ks {
             ctx.evals += 1;
@@ -127,7 +152,7 @@ impl Scenario for TornWrite {
                 pmtiles2::verif::set_scramble_seed(None);
                 let complete = d.image();
                 let log = d.take_log();
-                for k in 0..=log.len() {
+                for k in crash_points(log.len(), c.sample, c.seed) {
                     let img = image_after(&log, k);
                     if img != complete && pmtiles2::PMTiles::from_bytes(&img[..]).is_ok() {
                         out.push(to_value(&TornCase { only_k: Some(k as u64), ..c.clone() }));
@@ -545,5 +570,86 @@ pub fn canon_digest_main(case_json: &str) -> i32 {
             eprintln!("{}: {}", e.class, e.detail);
             2
         }
+    }
+}
+
+// ---------------------------------------------------------------------------------------------
+// C16: tiles living in a backing archive laid out by another writer vs the same tiles in memory
+
+#[derive(Clone, Debug, Serialize, Deserialize)]
+pub struct CanonForeignCase {
+    pub src: crate::scen_foreign::ImageSrc,
+    pub face: Face,
+    pub r: Policy,
+    pub perm: u64,
+}
+
+pub struct CanonicalForeign;
+
+impl Scenario for CanonicalForeign {
+    fn name(&self) -> &'static str {
+        "canonical-foreign-backing"
+    }
+    fn rule(&self) -> String {
+        "an archive laid out by the independent spec-level writer (shared, prefix-sharing and unordered tile offsets, leaf trees, gaps) is opened three times: written as opened (every tile reader-backed), with every tile re-added from memory, and with a random half re-added; the three outputs must be byte-identical, and writing the read-back output once more reproduces it; distinct = distinct serialized cases; non-trivial = at least two tiles".into()
+    }
+    fn generate(&self, rng: &mut Rng, _tier: Tier, _run: u64) -> Value {
+        let face = Face::draw(rng);
+        let big = rng.chance(1);
+        to_value(&CanonForeignCase { src: crate::scen_foreign::ImageSrc::Foreign(crate::scen_foreign::draw_foreign(rng, big)), face, r: Policy::draw(rng, face == Face::Async), perm: rng.next_u64() })
+    }
+    fn execute(&self, case: &Value, ctx: &mut Ctx) -> V<()> {
+        let c: CanonForeignCase = from_value(case);
+        let img = c.src.materialise(ctx, "C16")?;
+        ctx.evals += 1;
+        if img.expected.len() >= 2 {
+            ctx.sig(case_sig(case));
+        }
+        let mut r = Rng::new(c.perm);
+        let mut outs: Vec<Vec<u8>> = Vec::new();
+        for variant in 0..3u8 {
+            let mut pm = match sut::open(SimDisk::new(img.image.clone(), &c.r), c.face)? {
+                Ok(p) => p,
+                Err(e) => vio!("C16:open-failed", "a spec-valid archive does not open: {e}"),
+            };
+            if variant > 0 {
+                let mut ids: Vec<u64> = img.expected.keys().copied().collect();
+                r.shuffle(&mut ids);
+                for id in ids {
+                    if variant == 1 || r.chance(50) {
+                        let bytes = img.expected[&id].clone();
+                        let ok = sut::guard("add_tile", || pm.add_tile(id, bytes))?;
+                        ensure!(ok.is_ok(), "C16:add-failed", "add_tile failed");
+                    }
+                }
+            }
+            outs.push(save_bytes(pm, c.face, &Policy::plain(), Some(r.next_u64()), ctx)?);
+        }
+        let names = ["every tile in the backing archive", "every tile in memory", "half of the tiles in memory"];
+        for v in 1..3 {
+            if outs[v] != outs[0] {
+                let at = outs[0].iter().zip(&outs[v]).position(|(x, y)| x != y);
+                vio!("C16:backing-dependent-bytes", "the same logical archive serialises differently with {} ({} bytes) and with {} ({} bytes), first difference at {:?}", names[0], outs[0].len(), names[v], outs[v].len(), at);
+            }
+        }
+        let back = match sut::open(SimDisk::new(outs[0].clone(), &c.r), c.face)? {
+            Ok(p) => p,
+            Err(e) => vio!("C16:reopen-failed", "written archive does not open: {e}"),
+        };
+        let again = save_bytes(back, c.face, &Policy::plain(), Some(r.next_u64()), ctx)?;
+        ensure!(again == outs[0], "C16:rewrite-not-idempotent", "writing the archive that was just read back gives different bytes: {} vs {} bytes", again.len(), outs[0].len());
+        ctx.bump("foreign_backed_archives_compared", 1);
+        Ok(())
+    }
+    fn shrink(&self, case: &Value) -> Vec<Value> {
+        let c: CanonForeignCase = from_value(case);
+        let mut out: Vec<Value> = c.src.shrink().into_iter().map(|s| to_value(&CanonForeignCase { src: s, ..c.clone() })).collect();
+        for p in shrink_policy(&c.r) {
+            out.push(to_value(&CanonForeignCase { r: p, ..c.clone() }));
+        }
+        if c.face == Face::Async {
+            out.push(to_value(&CanonForeignCase { face: Face::Sync, ..c.clone() }));
+        }
+        out
     }
 }
